@@ -22,7 +22,7 @@ import (
 func TestMain(m *testing.M) { stat.Main(m) }
 
 func dst(t *rapid.T) []byte {
-	n := rapid.SampledFrom([]int{1, 2, 16, 43, 254, 255, 256, 257, 300, 1000}).Draw(t, "dstlen")
+	n := gen.Sampled([]int{1, 2, 16, 43, 254, 255, 256, 257, 300, 1000}).Draw(t, "dstlen")
 	if rapid.IntRange(0, 3).Draw(t, "dstany") == 0 {
 		n = rapid.IntRange(1, 600).Draw(t, "dstlen2")
 	}
@@ -59,7 +59,7 @@ func propSuites(t *rapid.T) {
 	// (DST directly followed by the message, followed by a canary, or the other way round) so that each
 	// slice has spare capacity that belongs to somebody else: an append() or an in-place edit inside
 	// the library then lands in the neighbour.
-	layout := rapid.SampledFrom([]string{"separate", "dst|msg|canary", "msg|dst|canary"}).Draw(t, "layout")
+	layout := gen.Sampled([]string{"separate", "dst|msg|canary", "msg|dst|canary"}).Draw(t, "layout")
 	canary := []byte{0xc5, 0x5c, 0xa7, 0x7a, 0x11, 0xee, 0x42, 0x24}
 	var backing []byte
 	switch layout {
@@ -130,7 +130,7 @@ var (
 
 // chosenU draws a field element aimed at the exceptional / branch cases.
 func chosenU(t *rapid.T) (*big.Int, string) {
-	kind := rapid.SampledFrom([]string{"0", "1", "p-1", "+sqrt(1/11)", "-sqrt(1/11)", "small", "drawn", "drawn", "iso-kernel", "limb-edge", "limb-edge"}).Draw(t, "ukind")
+	kind := gen.Sampled([]string{"0", "1", "p-1", "+sqrt(1/11)", "-sqrt(1/11)", "small", "drawn", "drawn", "iso-kernel", "limb-edge", "limb-edge"}).Draw(t, "ukind")
 	switch kind {
 	case "0":
 		return big.NewInt(0), kind
